@@ -152,6 +152,8 @@ def check_role(role: str, sl: T.Term, op: str, o: Outcome, ctx: Dict[str, Any]) 
 
 
 def run(prog: Program, rep: Report, tier: str) -> None:
+    from ..api_model import sign_summary_premise
+    sign_summary_premise(prog, rep)
     rep.rule("R2.1", "layout equality: every fixed byte and every hole offset/width of the symbolic frame equals spec/wire_frames.json for that operation", 14)
     rep.rule("R2.2", "argument wiring by role: session<-this call's login reply[8:12], timestamp<-this call's clock reading, device id/key<-configuration, each argument hole<-the same-named argument through its encoder's normal form and accepted range", 40)
     rep.rule("R2.4", "reject-before-send: every argument rejection raises inside an encoder before the command frame is written, and the expected rejections exist", 8)
